@@ -444,6 +444,14 @@ def run(ctx):
             found_input = True
         ctx.violation(name, text, no_input=not has_input)
 
+    from .. import c03detect                       # (round 9 covgap) the broken-'fmt ' detector vs Sf.AudioDetect, LIST/exif family
+    det = c03detect.run(ctx, known)
+    ctx.notes["detect_exif_problems"] = len(det)
+    for (name, text, has_input) in det[:3]:            # one defect shows on many members of the family: three replays are enough
+        if has_input:
+            found_input = True
+        ctx.violation(name, text, no_input=not has_input)
+
     kf_active = replay_known(ctx)
 
     fmts = writable_formats(ctx, majors, subs)
